@@ -21,13 +21,97 @@ CLAIMS = {
     },
 }
 
-CLAIMS["C04"] = {
-    "engine": "verus+kani",
-    "technique": "Verus contracts on the extracted PIDControllerStream::{new,reset,update}: exact one-step contract (expression tree over uninterpreted f32 operators) + idealised one-step contract over the reals, induction lemmas over the spec step for all histories; Kani one-step harnesses for structure/purity (C05 module)",
-    "text": "One-step contract of the real update() for an arbitrary pre-state satisfying the proved data invariant and an arbitrary input (Err / absent / present): post-state == pid_step(pre-state, input) exactly, and abs(post) == pid_step_r(abs(pre), input) over the reals (e = sp - pv, first sample I = D = 0, trapezoid, backward difference, weighted sum, stamped with the input time, reset on absent/error). For all finite histories, with no length bound, induction lemmas over pid_step_r give: reset erases history, closed form (I = trapezoidal sum, D = last backward difference) over any run of present samples, shift invariance, homogeneity, and agreement with the composition of the crate's integral/derivative streams.",
-    "note": V_BASE + K_BASE + "A7: consecutive timestamps differ by less than 2^63 ns (else debug builds panic on overflow). Exact power-of-two scaling at bit level and rounding are not decided (idealised over the reals).",
-    "design_ref": "DESIGN.md section 5 C04",
-}
+K = "kani"
+V = "verus"
+
+
+def claim(pid, engine, technique, text, note, ready=True):
+    CLAIMS[pid] = {"engine": engine, "technique": technique, "text": text, "note": note,
+                   "design_ref": "DESIGN.md section 5 %s, section 10" % pid, "ready": ready}
+
+
+claim("C01", K,
+      "Kani proof harnesses (cvc5 floating-point theory for the value clauses, SAT elsewhere) on every Unit/Quantity operator impl, every mixed Time/DimensionlessInteger impl and every conversion; constants checked against a name grammar",
+      "Every operator impl and assign form is proved for all i8 x i8 exponent pairs within A8 and every f32 bit pattern: result exponents are the sum/difference/unchanged, the value is the same f32 operator on the raw values (true IEEE semantics via cvc5), mixed operators equal the Quantity operator after conversion, add/sub/ordering panic iff units differ (post-call cover unreachable), bare-unit operators agree with the Quantity operators, the 49 constants have the exponents their names state, PositionDerivative/Command conversions both ways.",
+      K_BASE + "A8: exponents in [-64,63].")
+claim("C02", K,
+      "Kani proof harnesses over scripted fully symbolic inputs (every category assignment, error value and timestamp order at once) with a free-algebra token payload; n-ary streams unrolled completely per arity",
+      "Each of the 16 combinators (plus NoneGetter, ConstantGetter) is proved equal to its documented outcome table written as an independent spec function: error order, absent handling, left fold with exactly the payload operator, timestamps, Kleene truth tables, Sum2/Product2 agreement with the n-ary streams, De Morgan duality, purity of get(). N-ary streams: complete per arity N (quick 1..5, thorough 1..8), labelled bounded by arity.",
+      K_BASE + "A10 scripted inputs are pure; A7 in Expirer; parametricity argument for the token payload.")
+claim("C03", K,
+      "Kani proof harnesses (assume pre / assert post, loop-free, full i64 x payload domain) on every Datum operator impl, latest() and the replace helpers; function contract on latest(); stream/terminal/device timestamp clauses cross-listed from C02/C08/C09/C13",
+      "Every one of the 34 Datum operator impls and the selection helpers is proved against its timestamp contract for all i64 timestamp pairs and all payload bit patterns (payloads f32, Quantity, State, Command, bool and a free-algebra token); loop-free harnesses over full-domain symbolic inputs are complete proofs. Stream, terminal and device timestamp clauses are the time components of the cross-listed C02/C08/C09/C13 obligations.",
+      K_BASE + "Unit exponents restricted to [-64,63] (A8) where a payload operator multiplies units.")
+claim("C04", "verus+kani",
+      "Verus contracts on the extracted PIDControllerStream::{new,reset,update}: exact one-step contract (expression tree over uninterpreted f32 operators) + idealised one-step contract over the reals, induction lemmas over the spec step for all histories; Kani one-step harnesses for structure/purity (C05 module)",
+      "One-step contract of the real update() for an arbitrary pre-state satisfying the proved data invariant and an arbitrary input (Err / absent / present): post-state == pid_step(pre-state, input) exactly, and abs(post) == pid_step_r(abs(pre), input) over the reals (e = sp - pv, first sample I = D = 0, trapezoid, backward difference, weighted sum, stamped with the input time, reset on absent/error). For all finite histories, with no length bound, induction lemmas over pid_step_r give: reset erases history, closed form (I = trapezoidal sum, D = last backward difference) over any run of present samples, shift invariance, homogeneity, and agreement with the composition of the crate's integral/derivative streams.",
+      V_BASE + K_BASE + "A7: consecutive timestamps differ by less than 2^63 ns. Exact power-of-two scaling at bit level and rounding are not decided (idealised over the reals).")
+claim("C05", "kani+verus",
+      "Kani one-step contracts over an arbitrary symbolic pre-state (private fields made symbolic from a harness module inside the crate) for every stateful stream; Verus for the moving average (unbounded queue) and the value-level reset clauses",
+      "For each of the stateful streams: freshness (get() is Err(e) only if this update's input was Err(e); freeze: its documented table), reset (step(s, r) == step(new, r) field by field for every reset event class; ignored absent events leave the state bit-unchanged), purity of get(), and inductiveness of each data invariant, all for an ARBITRARY pre-state, which makes the statement independent of history length. The stale-error defect of IntegralStream/DerivativeStream was found by these obligations and repaired (known_findings.txt).",
+      K_BASE + V_BASE + "A10, A7.")
+claim("C06", "kani+verus",
+      "Kani proof harnesses over a fully symbolic MotionProfile (private fields symbolic under the data invariant) and symbolic query time; Verus for the constructor (panic-or-ordered) and the accessors' closed forms",
+      "Presence table, piece<->mode table, monotone piece order with exact boundaries, acceleration values, History::get never panics / stamps t / has the mode's kind / carries the matching accessor's value, end command forever after completion - for every profile satisfying 0 <= t1 <= t2 <= t3 and every i64 time in the A7 range; the constructor either panics or yields ordered boundaries (Verus, idealised cast).",
+      K_BASE + V_BASE + "A7: |t|, t3 < 2^60 ns.")
+claim("C07", V,
+      "Verus contracts on the extracted MotionProfile::{new,get_acceleration,get_velocity,get_position} over the extracted Unit/Quantity/Time operator layer: exact expression trees + idealised closed forms over the reals; trapezoid lemmas over the real-valued trajectory",
+      "The accessors are proved to compute vel_r/pos_r (the three closed forms per phase) over the reals, with integer nanosecond arithmetic exact and no unit-check panic or overflow; lemmas over vel_r/pos_r prove v(0)=v0, p(0)=p0, continuity of velocity and position at both joins, position is the integral of velocity in each phase (trapezoid identity), the velocity bound, and arrival at the end state for the constructor's kinematic durations; the constructor either panics or returns ordered boundaries, with max_acc = |max_acc| * sign(displacement).",
+      V_BASE + "A7; idealised (A3): the epsilon-proportional tolerances and sub-nanosecond truncations are listed as not decided.")
+claim("C08", K,
+      "Kani proof harnesses on Invert/GearTrain/Axle<N>/Differential::update with the crate's State operator impls replaced by deterministic uninterpreted stand-ins (-Z stubbing): the stored states are compared with the expected expression trees",
+      "For every have/lack subset of terminal data and all four differential trust modes: which terminals are written, with which expression tree of the readings (written out in each obligation's clause), stamped with the newest contributing time; fill-in of terminals without information; differential waits for every trusted branch; GearTrain::new ratio and sign; no panic. Axle complete per size N.",
+      K_BASE + "Operator stand-ins: anything proved holds for every interpretation of the operators, the real ones have their own contracts (C14, C03). The real-number meaning of the trees (constraint satisfied, least squares) is elementary algebra on the listed trees and is not mechanised.")
+claim("C09", K,
+      "Kani proof harness: one symbolic connect/disconnect step over an arbitrary symmetric matching of n real RefCell<Terminal> cells with symbolic slots (private fields set from inside the crate); read contracts per getter",
+      "After one symbolic operation from ANY symmetric matching: no panic (RefCell double borrows are panics Kani reports), links again a symmetric matching, exactly the expected pairs changed, all slots untouched - one step over arbitrary matchings covers every operation sequence. State read = mean of own and partner (or whichever exists), command read = newer (own wins ties), combined read consistent; connected terminals read the same state. The connect() double-borrow defect was found here and repaired (known_findings.txt).",
+      K_BASE + "n = 4 cells quick (connect touches at most 4 cells), up to 6 thorough.")
+claim("C10", V,
+      "Verus contracts on the extracted IntegralStream/DerivativeStream/AccelerationToState/VelocityToState/PositionToState::update over the extracted Quantity/Unit/Time operator layer: exact expression trees incl. unit exponents + idealised steps over the reals; induction lemmas (trapezoid sums, difference quotients, reset, shift)",
+      "One-step contracts for arbitrary pre-states: post == step(pre, input) exactly (units: input unit times/divided by seconds; output stamped with the newest sample; absent until 2 resp. 3 samples; unit checks never fire for correctly dimensioned input), and abs(post) == step_r(abs(pre), input) over the reals; for runs of any length the integral is the trapezoidal sum and the derivative the last difference quotient, converters the same applied once or twice; reset erases history; shift invariance.",
+      V_BASE + "A7, A8, constant input unit.")
+claim("C11", "verus+kani",
+      "Verus contracts on the extracted CommandPID::{new,reset,impl_set,get,update} (exact + idealised), lemmas over the spec step; Kani one-step structure harnesses (C05 module)",
+      "post == cpid_step(pre, input) with gains selected by the command kind, error against the matching state component, the staged record filling one level per sample; get() returns output / first integral / second integral by kind and is absent for exactly the first 0/1/2 samples; impl_set with an equal command changes nothing, with a different one resets; absent resets; an input error is cached and the next sample starts afresh.",
+      V_BASE + "update_following_data: not following => no-op (C15); SettableData opaque stub.")
+claim("C12", V,
+      "Verus contracts on the extracted EWMAStream (f32 instance and Quantity impl) and MovingAverageStream::update with loop invariants over the unbounded queue; idealised convexity lemmas",
+      "EWMA: value == prev*(1-L) + new*L with L = 1 - powf(1-s, dt), first sample unchanged (idealised), time = sample time, the expect never fires; moving average: for any positive window and any event no index is out of range, the trim loop terminates and never pops the newest element, integer weights are non-negative and sum to the window for non-decreasing timestamps; idealised: output is the weighted mean.",
+      V_BASE + "A4 (powf), A7.")
+claim("C13", K,
+      "Kani proof harnesses on the command halves of Invert/GearTrain/Axle<N>::update and the terminal command read, with Command operator impls replaced by uninterpreted stand-ins",
+      "After update every device terminal reads the newest command among those present (documented tie rule), kind and timestamp preserved, value mapped by the expected tree (negated / times ratio / divided by ratio / unchanged); no command => none written; a differential leaves all command slots bit-unchanged; a two-device chain harness.",
+      K_BASE + "Chains of k devices follow by induction from the per-device and terminal-read contracts (k = 2 mechanised).")
+claim("C14", K,
+      "Kani proof harnesses (cvc5 for State/Quantity float formulas, SAT for Command) on State::update, the setters, State/Command arithmetic, Command <-> State/Quantity/f32 conversions",
+      "State::update is exactly v' = v + dt*a, p' = p + dt*(v+v')/2 (true IEEE semantics) for every dt; setters accept the right unit and reject every other unit leaving the state bit-unchanged; Command::from(State) is the lowest non-zero derivative; accessors round-trip; arithmetic component-wise; different kinds always panic.",
+      K_BASE)
+claim("C15", K,
+      "Kani one-step contracts on the provided methods of Settable against an arbitrary implementor, and on GetterFromHistory / ConstantGetter / TimeGetterFromGetter with scripted clocks and histories",
+      "last request changes iff impl_set succeeded; following forwards exactly present values, nothing when absent, propagates errors, stops after stop_following; history adapter queries now + offset and restamps with now, constructors fix the offset as documented; constant getter; time getter from getter (absent => FromNone, its expect unreachable).",
+      K_BASE + "A7.")
+claim("C16", K,
+      "Kani proof harnesses with default memory-safety checks: functional equality under nondeterministic uninitialised memory for the n-ary streams, the terminal read and Axle::new; refutation witnesses for the lifetime-widening accessors",
+      "First sentence: results of SumStream/ProductStream (per arity), the terminal state read (all four presence combinations) and Axle::new (per size) equal their specification for every execution, which, since CBMC gives unwritten MaybeUninit slots arbitrary contents, means they never depend on unwritten memory; no index out of range. Second sentence: not decidable as a contract (type soundness over all programs); the eleven accessors that widen &self to &'a are exhibited by safe witness programs and recorded as known findings.",
+      K_BASE)
+claim("C17", K,
+      "Kani sequential contracts per Reference variant (clone/borrow/borrow_mut/into_inner/to_dyn!) inside the crate, plus harness crates outside rrtk that expand to_dyn! with and without alloc/std features",
+      "For each variant in the build: a write through any clone's borrow_mut is read through every other clone; Rc/Arc targets stay alive after the original is dropped; to_dyn! succeeds and aliases for every variant it lists. The concurrency clause is not decidable with Kani and is listed as not decided.",
+      K_BASE + "Sequential execution only.")
+claim("C18", K,
+      "Kani proof harnesses on every Time/DimensionlessInteger operator and conversion (cvc5 for float conversions)",
+      "Integer operators are exact i64 arithmetic under the weakest no-overflow precondition; i64 conversions are the identity; Time -> Quantity is (ns as f32)/1e9 in seconds; Quantity -> Time is (v*1e9) as i64 for seconds and Err for every other unit; every mixed operator equals the Quantity operator after conversion.",
+      K_BASE + "ulp/monotonicity accuracy clauses: attempted bit-precisely in the thorough tier; reported undecided when the solver does not finish.")
+claim("C19", K,
+      "the same value contracts re-proved by Kani against the code each of 7 feature configurations compiles (quick: 3), plus no-panic/no-reject harnesses for the unchecked builds and a scan of every cfg site",
+      "Every cfg-dependent item is listed by a scan of /repo; for each, the value contract - a function of the raw f32/i64 inputs only - is proved in every configuration, so equal inputs give equal numbers in all of them; with checking compiled out add/sub/ordering/setters/try_from never panic or reject for any pair of units; std abs and the manual branch agree.",
+      K_BASE + "Whole-program equality follows compositionally; powf across std/libm/micromath excluded by the property.")
+claim("C20", K,
+      "Kani proof harnesses on ActuatorWrapper/GetterStateDeviceWrapper/PIDWrapper::update with recording inner objects whose outcomes are symbolic",
+      "The inner settable receives exactly the terminal's combined read (nothing if none) before being updated; the encoder wrapper writes the getter's present state bit-unchanged and leaves the terminal untouched when absent; errors propagate in call order; the PID wrapper's wiring (clock, constant getters, follow) delivers exactly the inner CommandPID's output to the motor.",
+      K_BASE + "PIDWrapper harnesses use CBMC --max-field-sensitivity-array-size 1024.")
+
+READY = {"C03", "C04", "C07", "C19"}
 
 PENDING_REASON = "check not built yet at this commit (planned in DESIGN.md section 5); not claimed until its obligations are discharged on the unchanged tree"
 
@@ -38,6 +122,8 @@ def main():
     na = []
     for pid in props:
         c = CLAIMS.get(pid)
+        if c and pid not in READY:
+            c = None
         if not c:
             na.append({"property_id": pid, "reason": PENDING_REASON})
             continue
